@@ -89,6 +89,12 @@ CHECKS = {
                 text="Rounds of 1..512 real threads that log and exit between two backend idle periods (exactly 256 and 512 included), then retained contexts must equal "
                      "live threads that logged; shrink requests take effect at once and lose nothing. Found and repaired the 8-bit invalid-context counter.",
                 note="drain is logical (backend reported all-empty), never timed"),
+    "C07": dict(cat="fault_enumeration", ref="6/C07", tech="fault enumeration at runtime: child processes stopped/exited/killed at every statement boundary, judged from outside (wait status + destination files + progress side files)",
+                text="A child runs a scripted program over FileSinks and performs stop()/exit()/return/stop-start cycles or raises a handled signal at statement boundary k; "
+                     "for the 6-statement program every k x action x other-thread state x backend load and every k x signal x victim thread are enumerated, larger programs, "
+                     "Tsc clock and more cycles are sampled. The parent checks after waitpid that every statement whose call returned before the action is in its file "
+                     "once and in order, notices follow, exit status / terminating signal are right.",
+                note="out of process there is no logical clock: a 120 s watchdog (1000x the normal duration) with one re-run decides hangs"),
 }
 
 NOT_YET = "check not built yet in this revision (design in DESIGN.md section 6); not claimed until its harness exists"
